@@ -29,7 +29,8 @@ RULE = ('Generated positive equity curves of length 2-600 on business-day date i
         'or by an arbitrary positive constant (1e-9); TearsheetStatistics.get_results and JSONStatistics agree on '
         'every common number and series and to_file()/json.load round-trips; in half the cases a benchmark curve on the '
         'same dates is supplied and the benchmark section is checked against its own oracle. Non-trivial = >= 1 strictly under-water '
-        'date, >= 2 calendar months and not monotone-up.')
+        'date, >= 2 calendar months and not monotone-up.'
+        " Round-10 reach: a third of the frames carry `Cash` and `Positions` columns around `Equity` (tear sheet and JSON statistics).")
 ASSUMPTIONS = [
     'positive equity, business-day date index (datetime.date) as produced by get_equity_curve()',
     'Sharpe/Sortino compared only when their denominator is well conditioned; Sortino only with >= 2 negative returns',
@@ -116,8 +117,17 @@ def oracle(e, idx):
             'dur': (lo, hi), 'agg': agg, 'total': float(cum[-1] - 1), 'cum_last': float(cum[-1])}
 
 
-def stats_for(q, e, idx, tmp=None, periods=252, alloc_lag=0):
-    eq = pd.DataFrame({'Equity': list(e)}, index=list(idx))
+def curve_frame(e, idx, extra_cols=False):
+    """The equity-curve frame: the 'Equity' column, optionally among other columns of an account report (the
+    statistics are defined on the column labelled 'Equity')."""
+    if not extra_cols:
+        return pd.DataFrame({'Equity': list(e)}, index=list(idx))
+    return pd.DataFrame({'Cash': [1000.0 + 37.0 * (i % 5) for i in range(len(e))], 'Equity': list(e),
+                         'Positions': [float(i % 3) for i in range(len(e))]}, index=list(idx))
+
+
+def stats_for(q, e, idx, tmp=None, periods=252, alloc_lag=0, extra_cols=False):
+    eq = curve_frame(e, idx, extra_cols)
     # (the allocation frame may start later than the curve: weights exist only from the first rebalance on)
     lag = min(alloc_lag, max(0, len(e) - 1))
     alloc = pd.DataFrame({'EQ:A': [1.0] * (len(e) - lag)}, index=list(idx)[lag:])
@@ -221,7 +231,7 @@ def run_case(case):
     fd, tmp = tempfile.mkstemp(prefix='vq_stats_', suffix='.json')
     os.close(fd)
     try:
-        js, s = stats_for(q, e, idx, tmp, P, alloc_lag=case.get('alloc_lag', 0))
+        js, s = stats_for(q, e, idx, tmp, P, alloc_lag=case.get('alloc_lag', 0), extra_cols=case.get('extra_cols', False))
         if len(s['equity_curve']) != n:
             raise Violation('statistics cover %d observations, the equity curve has %d (allocations start %d rows later)' % (
                 len(s['equity_curve']), n, case.get('alloc_lag', 0)))
@@ -289,7 +299,8 @@ def run_case(case):
         r = o['r']
         mx = max(abs(x) for x in r)
         sd = pstd(r)
-        cls = [case['shape'], 'periods_%s' % P] + (['integer_equity_column'] if case.get('whole_units') else [])
+        cls = [case['shape'], 'periods_%s' % P] + (['integer_equity_column'] if case.get('whole_units') else []) + (
+            ['equity_among_other_columns'] if case.get('extra_cols') else [])
         if mx > 0 and sd >= 1e-6 * mx:
             want = math.sqrt(P) * (math.fsum(r) / n) / sd
             if not close(float(s['sharpe']), want, 1e-7, 1e-6):
@@ -316,7 +327,7 @@ def run_case(case):
         if mx > 0 and sd >= 1e-6 * mx and not close(float(s['stdev_returns']), sd, 1e-7):
             raise Violation('deviation of returns %r, population deviation %r' % (float(s['stdev_returns']), sd))
         # tearsheet == JSON
-        eq = pd.DataFrame({'Equity': list(e)}, index=list(idx))
+        eq = curve_frame(e, idx, case.get('extra_cols', False))
         ts_obj = TearsheetStatistics(eq.copy()) if P == 252 else TearsheetStatistics(eq.copy(), periods=P)
         tr = ts_obj.get_results(eq.copy())
         if case.get('benchmark'):
@@ -481,7 +492,7 @@ def cases(draw):
     return {'whole_units': whole, 'shape': shape, 'start': [d0.year, d0.month, d0.day], 'equity': e, 'benchmark': bench,
             'benchmark_lead': draw(st.sampled_from([0, 0, 5, 40])) if bench else 0,
             'panel': draw(st.sampled_from([False, False, False, True])),
-            'alloc_lag': draw(st.sampled_from([0, 0, 1, 21])), 'holidays': draw(st.sampled_from([0, 0, 9, 23])),
+            'extra_cols': draw(st.sampled_from([False, False, True])), 'alloc_lag': draw(st.sampled_from([0, 0, 1, 21])), 'holidays': draw(st.sampled_from([0, 0, 9, 23])),
             'reslice': draw(st.sampled_from([False, False, True])),
             'periods': draw(st.sampled_from([252, 252, 52, 12, 365])), 'pow2': draw(st.sampled_from([1, -3, 10, 4])),
             'scale': draw(st.sampled_from([3.7, 0.01, 1e3, 1.1, 0.37]))}
